@@ -98,6 +98,19 @@ def check(ctx: Ctx) -> list[RuleResult]:
         cfg = ctx.plain_cfg(g2)
         node = _stmt_node(cfg, n)
         guards = [t for t in cfg.nodes if t.kind == "test" and _is_budget_test(t.ast) and cfg.edge_dominates(t, "true", node)]
+        if not guards:
+            # however the budget test is spelled (negated with the arms swapped, an early return): is `count < limit` known here?
+            from .common import edge_implies as _ei1
+            from .common import expand as _ex1
+            from .common import facts_at as _fa1
+            from .common import inline_calls as _il1
+
+            st1 = n
+            while not isinstance(st1, ast.stmt):
+                st1 = st1.parent  # type: ignore[attr-defined]
+            goal1 = ast.parse("self._cmd_tx_count < self._cmd_tx_limit", mode="eval").body
+            hit1 = [t for t, v in _fa1(st1) if _ei1(_ex1(g2.node, _il1(ctx, g2, t), pure_only=False), v, goal1)]
+            guards = [type("G", (), {"ast": hit1[0]})()] if hit1 else []
         if g2 is expire and guards and len(sites) == 1:
             r1.ok({"timed_out_site": g2.short, "guard": norm(guards[0].ast)})
         else:
@@ -168,8 +181,33 @@ def check(ctx: Ctx) -> list[RuleResult]:
     r2.instances += 1
     r2.nontrivial += 1
     first = body[0] if body else None
+    def _contains(stmt: ast.AST, pred, depth: int = 2) -> bool:
+        """the statement itself, or a same-object private method it calls, does `pred`"""
+        for x in ast.walk(stmt):
+            if pred(x):
+                return True
+            if depth and isinstance(x, ast.Call) and isinstance(x.func, ast.Attribute) and isinstance(x.func.value, ast.Name) and x.func.value.id == "self" and set_state.cls is not None:
+                h = next((k.methods[x.func.attr] for k in set_state.cls.mro if x.func.attr in k.methods), None)
+                if h is not None and not h.is_async and any(_contains(b, pred, depth - 1) for b in h.node.body):
+                    return True
+        return False
+
+    cfg2 = ctx.plain_cfg(set_state)
+    cancels = [x for x in cfg2.nodes if x.ast is not None and x.kind == "stmt" and _contains(x.ast, lambda y: isinstance(y, ast.Call) and norm(y.func) == "self._expiry_timer.cancel")]
+    changes = [x for x in cfg2.nodes if x.ast is not None and x.kind == "stmt" and _contains(x.ast, lambda y: isinstance(y, ast.Assign) and any(norm(t) == "self._state" for t in y.targets))]
+    dom2 = cfg2.dominators()
+    # the cancel sits under `if self._expiry_timer is not None` (there may be nothing to cancel): the *test* (or the helper call
+    # that holds it) dominates the state change
+    cancel_pts = set()
+    for c2 in cancels:
+        cancel_pts.add(c2.id)
+        for t2 in cfg2.nodes:
+            if t2.kind == "test" and t2.ast is not None and "_expiry_timer" in norm(t2.ast) and c2.id in cfg2.reachable_from(t2.id):
+                cancel_pts.add(t2.id)
     if isinstance(first, ast.If) and "self._expiry_timer is not None" in norm(first.test) and any("self._expiry_timer.cancel()" in norm(b) for b in first.body):
         r2.ok({"first_statement": norm(first)[:80]})
+    elif cancels and changes and all(cancel_pts & dom2[ch.id] for ch in changes):
+        r2.ok({"timer_cancel": norm(cancels[0].ast)[:60], "dominates": "the state change"})
     else:
         r2.fail(f"{set_state.short}:timer-cancel-first", set_state.loc(), "set_state no longer starts by cancelling the pending expiry timer: a stale timer could retransmit after the state changed")
     r2.instances += 1
